@@ -4,6 +4,7 @@
 import ShelxModel.C20
 import ShelxModel.Extracted.C20Src
 import ShelxProps.Lemmas.C20Jacobi
+import ShelxProps.Lemmas.C20Heap
 import Mathlib.Tactic.Ring
 import Mathlib.Tactic.Linarith
 import Mathlib.Tactic.LinearCombination
@@ -1050,6 +1051,208 @@ def octaTgt : List (P3 Rat) := octaSrc.map fun p => ⟨p.z, p.x, p.y⟩
 /-- on this pair the quadratic form has a zero diagonal and the code before fixes/C20_3 raised (model: `none`) -/
 theorem jacobi_old_fails_on :
     (qform octaSrc octaTgt).map (fun n => (jacobiOld opsQ n 30).isSome) = some false := by decide +kernel
+
+/-! ## the caller's objects: shared rows, in-place changes, histories
+
+  `fitFragment` is a function of three lists of numbers. The code works on lists of references to rows, which the
+  caller may share between the fragment and the source list, change in place between two fits, and which `rotmol`
+  changes in place. `fitFragmentH` (ShelxModel/C20.lean) follows `fit_fragment` on such a heap statement by statement; the
+  theorems say that the difference cannot be observed: the result is `fitFragment` of the numbers at the call
+  (`fitFragmentH_eq`), no row that existed is written (`fitFragmentH_frame`), and over any history of in-place changes and
+  fits every fit sees exactly the current numbers (`history_reads_current`). A version that keeps anything from an
+  earlier call and trusts it later has no model of this form. -/
+
+section heap
+variable {K : Type} [Add K] [Sub K] [Mul K] [Div K] [OfNat K 0] [OfNat K 1]
+
+/-- **fitFragmentH_eq**: whatever rows the caller's three lists share (with each other or within themselves), what
+    `fit_fragment` returns is `fitFragment` of the numbers those rows hold at the call. `hf hs ht`: the lists refer to
+    rows that exist (a dangling reference cannot occur in Python). Holds for every number type (no law of arithmetic
+    is used), hence for the floats the code computes with. -/
+theorem fitFragmentH_eq (isZero : K → Bool) (sqrt : K → K) (fit : List (P3 K) → List (P3 K) → Option (M3 K))
+    (h : Heap K) (frag src tgt : List Nat) (hf : Below frag h.next) (hs : Below src h.next) (ht : Below tgt h.next) :
+    (fitFragmentH isZero sqrt fit h frag src tgt).map (fun r => (r.1.read r.2.1, r.2.2))
+      = fitFragment isZero sqrt fit (h.read frag) (h.read src) (h.read tgt) := by
+  unfold fitFragmentH fitFragment
+  rcases hA1 : h.alloc (h.read src) with ⟨h1, l1⟩
+  obtain ⟨n1, b1, ab1, nd1, rd1, old1, -⟩ := alloc_spec _ _ _ _ hA1
+  simp only []
+  rw [old1 tgt ht]
+  rcases hA2 : h1.alloc (h.read tgt) with ⟨h2, l2⟩
+  obtain ⟨n2, b2, ab2, nd2, rd2, old2, -⟩ := alloc_spec _ _ _ _ hA2
+  simp only []
+  rw [old2 l1 b1, rd1, rd2]
+  cases hpc : centroid isZero (h.read src) with
+  | none => rfl
+  | some pc =>
+    cases hqc : centroid isZero (h.read tgt) with
+    | none => rfl
+    | some qc =>
+      simp only []
+      rcases hA3 : h2.alloc (minusVect (h.read src) pc) with ⟨h3, l3⟩
+      obtain ⟨n3, b3, ab3, nd3, rd3, old3, -⟩ := alloc_spec _ _ _ _ hA3
+      simp only []
+      rw [old3 l2 b2, rd2]
+      rcases hA4 : h3.alloc (minusVect (h.read tgt) qc) with ⟨h4, l4⟩
+      obtain ⟨n4, b4, ab4, nd4, rd4, old4, -⟩ := alloc_spec _ _ _ _ hA4
+      simp only []
+      rw [old4 l3 b3, rd3, rd4]
+      cases hu : fit (minusVect (h.read src) pc) (minusVect (h.read tgt) qc) with
+      | none => rfl
+      | some u =>
+        simp only []
+        have le1 : h.next ≤ h1.next := by omega
+        have le2 : h1.next ≤ h2.next := by omega
+        have le3 : h2.next ≤ h3.next := by omega
+        have le4 : h3.next ≤ h4.next := by omega
+        have rs4 : ∀ l, Below l h.next → h4.read l = h.read l := fun l hl => by
+          rw [old4 _ (below_mono hl (by omega)), old3 _ (below_mono hl (by omega)), old2 _ (below_mono hl (by omega)), old1 _ hl]
+        rw [rs4 src hs]
+        rcases hA5 : h4.alloc (minusVect (h.read src) pc) with ⟨h5, l5⟩
+        obtain ⟨n5, -, -, -, -, old5, -⟩ := alloc_spec _ _ _ _ hA5
+        simp only []
+        have le5 : h4.next ≤ h5.next := by omega
+        rw [old5 _ (below_mono hf (by omega)), rs4 frag hf]
+        rcases hA6 : h5.alloc (minusVect (h.read frag) pc) with ⟨h6, l6⟩
+        obtain ⟨n6, b6, ab6, nd6, rd6, old6, -⟩ := alloc_spec _ _ _ _ hA6
+        simp only []
+        have le6 : h5.next ≤ h6.next := by omega
+        rw [rotmol_read h6 l6 u nd6, rd6]
+        rcases hA7 : (h6.rotmol l6 u).alloc (plusVect (rotmol (minusVect (h.read frag) pc) u) qc) with ⟨h7, l7⟩
+        obtain ⟨n7, b7, ab7, nd7, rd7, old7, -⟩ := alloc_spec _ _ _ _ hA7
+        simp only []
+        rw [rotmol_next] at n7 ab7 old7
+        -- the rows of the centred source (l3) lie below those of the centred target (l4), of the fragment copy (l6)
+        -- and of the result (l7)
+        have d43 : ∀ a ∈ l4, a ∉ l3 := fun a ha hm => by have := ab4 a ha; have := b3 a hm; omega
+        have d73 : ∀ a ∈ l7, a ∉ l3 := fun a ha hm => by have := ab7 a ha; have := b3 a hm; omega
+        have d36 : ∀ a ∈ l3, a ∉ l6 := fun a ha hm => by have := ab6 a hm; have := b3 a ha; omega
+        have d46 : ∀ a ∈ l4, a ∉ l6 := fun a ha hm => by have := ab6 a hm; have := b4 a ha; omega
+        have r3 : h7.read l3 = minusVect (h.read src) pc := by
+          rw [old7 _ (below_mono b3 (by omega)), read_rotmol_disjoint _ _ _ _ d36, old6 _ (below_mono b3 (by omega)),
+            old5 _ (below_mono b3 (by omega)), old4 _ b3, rd3]
+        have r4 : h7.read l4 = minusVect (h.read tgt) qc := by
+          rw [old7 _ (below_mono b4 (by omega)), read_rotmol_disjoint _ _ _ _ d46, old6 _ (below_mono b4 (by omega)),
+            old5 _ b4, rd4]
+        rw [read_rotmol_disjoint _ _ _ _ d43, r4, rotmol_read h7 l3 u nd3, r3]
+        cases hr : rmsd sqrt (minusVect (h.read tgt) qc) (rotmol (minusVect (h.read src) pc) u) with
+        | none => rfl
+        | some rms =>
+          simp only [Option.map_some, Option.some.injEq, Prod.mk.injEq, and_true]
+          rw [read_rotmol_disjoint _ _ _ _ d73, rd7]
+
+/-- **fitFragmentH_frame**: `fit_fragment` writes to no row that existed before the call (so the caller's fragment,
+    source and target lists hold the same numbers afterwards, whatever they share), and the list it returns consists of
+    new rows. -/
+theorem fitFragmentH_frame (isZero : K → Bool) (sqrt : K → K) (fit : List (P3 K) → List (P3 K) → Option (M3 K))
+    (h : Heap K) (frag src tgt : List Nat) :
+    ∀ r, fitFragmentH isZero sqrt fit h frag src tgt = some r →
+      Ext h r.1 ∧ (∀ a ∈ r.2.1, h.next ≤ a) ∧ Below r.2.1 r.1.next := by
+  unfold fitFragmentH
+  rcases hA1 : h.alloc (h.read src) with ⟨h1, l1⟩
+  have x1 := ext_alloc h _ _ _ _ hA1 (ext_refl h)
+  simp only []
+  rcases hA2 : h1.alloc (h1.read tgt) with ⟨h2, l2⟩
+  have x2 := ext_alloc h _ _ _ _ hA2 x1
+  simp only []
+  split
+  · rcases hA3 : h2.alloc (minusVect (h2.read l1) _) with ⟨h3, l3⟩
+    have x3 := ext_alloc h _ _ _ _ hA3 x2
+    obtain ⟨-, -, ab3, -, -, -, -⟩ := alloc_spec _ _ _ _ hA3
+    simp only []
+    rcases hA4 : h3.alloc (minusVect (h3.read l2) _) with ⟨h4, l4⟩
+    have x4 := ext_alloc h _ _ _ _ hA4 x3
+    simp only []
+    split
+    · intro r hr; exact absurd hr (by simp)
+    · rename_i u _
+      rcases hA5 : h4.alloc (minusVect (h4.read src) _) with ⟨h5, l5⟩
+      have x5 := ext_alloc h _ _ _ _ hA5 x4
+      simp only []
+      rcases hA6 : h5.alloc (minusVect (h5.read frag) _) with ⟨h6, l6⟩
+      have x6 := ext_alloc h _ _ _ _ hA6 x5
+      obtain ⟨-, -, ab6, -, -, -, -⟩ := alloc_spec _ _ _ _ hA6
+      simp only []
+      have x6' := ext_rotmol h h6 l6 u (fun a ha => by have := ab6 a ha; have := x5.1; omega) x6
+      rcases hA7 : (h6.rotmol l6 u).alloc (plusVect ((h6.rotmol l6 u).read l6) _) with ⟨h7, l7⟩
+      have x7 := ext_alloc h _ _ _ _ hA7 x6'
+      obtain ⟨-, b7, ab7, -, -, -, -⟩ := alloc_spec _ _ _ _ hA7
+      simp only []
+      have x8 := ext_rotmol h h7 l3 u (fun a ha => by have := ab3 a ha; have := x2.1; omega) x7
+      split
+      · intro r hr; exact absurd hr (by simp)
+      · intro r hr
+        simp only [Option.some.injEq] at hr
+        subst hr
+        refine ⟨x8, fun a ha => ?_, ?_⟩
+        · have := ab7 a ha; rw [rotmol_next] at this; have := x6.1; omega
+        · show Below l7 (h7.rotmol l3 u).next
+          rw [rotmol_next]; exact b7
+  · intro r hr; exact absurd hr (by simp)
+
+/-- the caller refers to rows that existed when the history began (`n` of them) -/
+def StepOk (n : Nat) : Step K → Prop
+  | .write a _ => a < n
+  | .fit f s g => Below f n ∧ Below s n ∧ Below g n
+
+/-- **history_reads_current**: over ANY history of assignments to the caller's rows and fits on lists of those rows
+    (sharing rows in any way), every `fit_fragment` returns `fitFragment` of the numbers the rows hold at that moment:
+    nothing is remembered from earlier calls, every in-place change is seen, and the fits change no row of the caller. -/
+theorem history_reads_current (isZero : K → Bool) (sqrt : K → K) (fit : List (P3 K) → List (P3 K) → Option (M3 K))
+    (steps : List (Step K)) (h : Heap K) (c : Nat → P3 K) (n : Nat) (hn : n ≤ h.next) (hc : ∀ a, a < n → h.cell a = c a)
+    (hok : ∀ st ∈ steps, StepOk n st) :
+    runH isZero sqrt fit h steps = specH isZero sqrt fit c steps := by
+  induction steps generalizing h c with
+  | nil => rfl
+  | cons st t ih =>
+    have hok' : ∀ st ∈ t, StepOk n st := fun s hs => hok s (List.mem_cons_of_mem _ hs)
+    cases st with
+    | write a p =>
+      simp only [runH, specH]
+      apply ih _ _ (by rw [write_next]; exact hn) _ hok'
+      intro a' ha'
+      simp only [Heap.write]
+      split
+      · rfl
+      · exact hc a' ha'
+    | fit f s g =>
+      obtain ⟨bf, bs, bg⟩ : Below f n ∧ Below s n ∧ Below g n := hok _ (List.mem_cons_self ..)
+      have rd : ∀ l, Below l n → h.read l = l.map c := fun l hl => List.map_congr_left (fun a ha => hc a (hl a ha))
+      have e := fitFragmentH_eq isZero sqrt fit h f s g (below_mono bf hn) (below_mono bs hn) (below_mono bg hn)
+      rw [rd f bf, rd s bs, rd g bg] at e
+      simp only [runH, specH]
+      cases hr : fitFragmentH isZero sqrt fit h f s g with
+      | none =>
+        rw [hr] at e
+        simp only [Option.map_none] at e
+        rw [← e]
+        simp only [List.cons.injEq, true_and]
+        exact ih h c hn hc hok'
+      | some r =>
+        rw [hr] at e
+        simp only [Option.map_some] at e
+        rw [← e]
+        simp only [List.cons.injEq, true_and]
+        obtain ⟨x, -, -⟩ := fitFragmentH_frame isZero sqrt fit h f s g r hr
+        exact ih r.1 c (Nat.le_trans hn x.1) (fun a ha => by rw [x.2 a (Nat.lt_of_lt_of_le ha hn)]; exact hc a ha) hok'
+
+end heap
+
+/-- a history that meets the hypotheses: the witness atoms `wSrc` are rows 0–3 (fragment AND source list: the same rows),
+    their targets rows 4–7; fit, move atom 0 in place, fit again — the second fit sees the moved atom -/
+def wHeap : Heap Rat := ⟨fun a => ((wSrc ++ wTgt)[a]?).getD ⟨0, 0, 0⟩, 8⟩
+def wHist : List (Step Rat) := [.fit [0, 1, 2, 3] [0, 1, 2, 3] [4, 5, 6, 7], .write 0 ⟨3, 0, 0⟩, .fit [0, 1, 2, 3] [0, 1, 2, 3] [4, 5, 6, 7]]
+
+theorem wHist_ok : ∀ st ∈ wHist, StepOk 8 st := by
+  intro st hst
+  simp only [wHist, List.mem_cons, List.not_mem_nil, or_false] at hst
+  rcases hst with rfl | rfl | rfl <;> simp [StepOk, Below]
+
+example : runH isZeroQ id fit90 wHeap wHist = specH isZeroQ id fit90 wHeap.cell wHist :=
+  history_reads_current isZeroQ id fit90 wHist wHeap wHeap.cell 8 (Nat.le_refl _) (fun _ _ => rfl) wHist_ok
+
+/-- … and what comes out: deviation 0 first, then (atom 0 moved by 1 along x) a mean-square deviation of 3/16 -/
+theorem wHist_result : (runH isZeroQ id fit90 wHeap wHist).map (fun o => o.map (·.2)) = [some 0, some (3/16)] := by decide +kernel
 
 /-! ## the tie to the traced source (`ShelxModel/Extracted/C20Src.lean`, regenerated on every run)
 
